@@ -126,5 +126,17 @@ PROPS["C20"] = {
     "replay_help": "case.keys = sorted (key bytes, value) pairs; correspondence_code 1 = the builder's level vectors, Get or iteration differ from the model's logical trie, 2 = the model cannot build this key set; oracle_code 1 = Get (in memory or loaded), iteration or prefix enumeration differ from the sorted map, or Seek lands neither on the lower bound nor on the predecessor; 101 = Seek landed on the predecessor of an absent key (known finding); 900 = build/serialise failure, see observed",
 }
 
+PROPS["C06"] = {
+    "harness": "c06",
+    "props_files": ["C06/Props.v"],
+    "n": {"quick": 150, "thorough": 3000},
+    "level_text": "Theorems (Coq, no axioms) over the history machine of the fan-out queue: for EVERY history of append / consume / ack / set-consumed (inside the window) / sync / gc / create / stop / reopen over any groups, every existing and every stopped group has -1 <= ack <= consumed <= appended; consume hands out consumed+1 or nothing; an ack outside [ack, consumed] changes nothing; the queue ack is monotone and, when it moves, bounded by appended and by every existing group's ack; GC never makes a sequence above the queue ack unreadable; reopen preserves positions. Tied to the code by replaying generated histories on a real queue directory and comparing all positions, consume results and Get-readability probes after every operation.",
+    "level_note": "Trusted: the model abstracts the mmap pages to positions and an index-page floor (messages are small, data pages are never truncated in these histories); concurrent consume-vs-ack is not exercised (operations are applied one at a time).",
+    "rule": "histories of 10-70 operations over up to 4 groups (25 % of acks outside the window, consume on an empty queue via Pause, stop + re-create, reopen, a few histories crossing the 262144-entry index page so that GC really removes a page); non-trivial = >= 1 append, >= 2 groups, a consume, and a stop/reopen/sync-with-two-groups after a consume; distinct = different JSON",
+    "trusted": ["partial: the interleaving of one consumer and one acker on a group is not modelled; sync.RWMutex regions are assumed atomic"],
+    "assumptions": ["set-consumed is issued inside [ack, appended] (the property's 'outside an explicit index reset')", "a new group starts at (-1, -1), not at the queue ack: messages at or below the queue ack are not readable for it (noted in DESIGN.md; the statement bounds the queue ack by the groups existing when it moves)"],
+    "replay_help": "case.ops is the operation list (groups are numbered); correspondence_code k = the first operation (1-based) after which positions / consume result / readability differ from the model; oracle_code k = first operation after which the implementation's own observations violate ordering, monotonicity, the ack window, the bound of the queue ack, or readability above the queue ack",
+}
+
 for _pid in PROPS:
     NOT_APPLICABLE.pop(_pid, None)
